@@ -406,8 +406,39 @@ def relate_unit():
                             ('rs', 'GV.Shape → GV.Shape → Bool'), ('ri', 'GV.Shape → GV.Shape → Bool')])
 
 
+# ----------------------------------------------------------------------------------------------------------
+# geostructures/coordinates.py :: Coordinate.__init__ — normalisation   (C08)
+#
+# floats are exact rationals (§3); the two `while` loops are fuelled recursions whose fuel is the model's computed bound
+# (`fuelLat`, `fuelLon`; Props/C08 proves the bounds are never exhausted); the result is the stored (longitude, latitude),
+# and `z`, `m` must be stored exactly as given.
+
+def coord_unit():
+    src = py2lean.Source(_repo('coordinates.py'))
+    insts = [
+        Inst('Coordinate.__init__', 'init', [('self', 'None'), ('longitude', 'R'), ('latitude', 'R'), ('z', 'ZM'), ('m', 'ZM'),
+                                             ('_bounded', 'Bool')], 'Prod R R'),
+    ]
+    py2lean.LEAN_TYPE.setdefault('ZM', 'Option Rat')
+
+    def init_hook(tr, fields):
+        if set(fields) != {'longitude', 'latitude', 'z', 'm'}:
+            raise Unsupported(f'Coordinate.__init__ stores fields {sorted(fields)}')
+        if fields['z'].path != 'z' or fields['m'].path != 'm':
+            raise Unsupported('Coordinate.__init__ does not store z / m exactly as given')
+        if fields['longitude'].typ != 'R' or fields['latitude'].typ != 'R':
+            raise Unsupported('Coordinate.__init__ stores non-float longitude / latitude')
+        return f'({fields["longitude"].text}, {fields["latitude"].text})'
+
+    def fuel(qual, index):
+        return {1: 'GV.fuelLat {lat}', 2: 'GV.fuelLon {lon}'}.get(index)
+
+    return Unit('SrcCoord', src, 'GV.Src.Coord', ['GeoVerif.Model.Coord'], insts, {},
+                hooks={'isinstance': lambda typ: None, 'init': init_hook, 'fuel': fuel})
+
+
 UNITS = {'SrcTime': time_unit, 'SrcBase': base_unit, 'SrcMulti': multi_unit, 'SrcColl': coll_unit, 'SrcPip': pip_unit,
-         'SrcMember': member_unit, 'SrcTrack': track_unit, 'SrcRelate': relate_unit}
+         'SrcMember': member_unit, 'SrcTrack': track_unit, 'SrcRelate': relate_unit, 'SrcCoord': coord_unit}
 
 
 def render(name):
